@@ -9,7 +9,7 @@ PROPS = {"C20": dict(
           "log: stale 7 s..400 d, re-signed by another key, other origin, truncated, checkpoint / log.v3.json missing or garbage, key / name / interval altered, "
           "final tree missing or differing in size / root / timestamp; witness: verifier_keys empty / invalid / file missing or garbage, checkpoint cosigned by unlisted keys, "
           "directory renamed to another origin's hash, truncated, missing; mirror: the same on mirror.v0.json and the mirror checkpoint, right-edge tile missing / bit-flipped / shortened / lengthened, "
-          "mirror ahead of pending, pending missing. Ages within 1.5 s of the 5 s freshness threshold (or of the 7 d + 3 s read-only threshold) are never generated; fresh = timestamp in the future, "
+          "mirror ahead of pending, pending missing or of another origin. Ages within 1.5 s of the 5 s freshness threshold (or of the 7 d + 3 s read-only threshold) are never generated; fresh = timestamp in the future, "
           "or 0-1 s old with the case discarded if the machine needed more than 2 s. "
           "non-trivial = exactly one defect, or >= 2 defects with at least one on a staging entry; distinct = the full state descriptor"),
     assumptions=["the harness' independent reading of the files (vfref note parser, own ECDSA / Ed25519 / ML-DSA-44 cosignature checks, own right-edge root recomputation) agrees with the expectation by construction on every case, otherwise the run is inconclusive",
